@@ -10,6 +10,18 @@ def main(argv):
         print("usage: check <Cxx> [quick|thorough] [--only names] | check <Cxx> --replay <file>")
         return 3
     prop = argv[0]
+    if prop == "selftest":
+        # every seeded property-breaking change must be reported by its property's check, no behaviour-preserving refactoring may be
+        import subprocess
+        from . import run as _run
+        r1 = subprocess.run([sys.executable.replace("python3-vt", "python3"), str(_run.VERIF / "tools" / "seedsweep.py")] + argv[1:])
+        r2 = subprocess.run([sys.executable.replace("python3-vt", "python3"), str(_run.VERIF / "tools" / "benignsweep.py")])
+        seeds = json.load(open(_run.VERIF / "seeded" / "SWEEP.json"))
+        benign = json.load(open(_run.VERIF / "benign" / "SWEEP.json"))
+        missed = sorted(k for k, v in seeds.items() if not v.get("detected") and not v.get("skipped"))
+        alarms = sorted(f"{b}/{p}" for b, r in benign.items() for p, x in r.items() if x.get("exit") == 1)
+        print(f"selftest: {len(seeds) - len(missed)}/{len(seeds)} seeded changes detected; missed: {missed or 'none'}; false alarms on refactorings: {alarms or 'none'}")
+        return 0 if not missed and not alarms else 1
     tier = os.environ.get("VERIF_TIER") or "quick"
     only = None
     rest = argv[1:]
